@@ -1032,6 +1032,8 @@ func (in *inst) invariants(after string, retProd int) *fail {
 			return failf("C28|votes-overdraw|used>rights|after="+after, "stake address %d: %s DPoS v2 votes in use with vote rights of only %s", a, ela(used), ela(rights))
 		case inForce > rights:
 			return failf("C28|votes-overdraw|in-force>rights|after="+after, "stake address %d: votes attached to producers sum to %s with vote rights of only %s (accounted as used: %s)", a, ela(inForce), ela(rights), ela(used))
+		case inForce != used:
+			return failf("C28|votes-overdraw|used!=attached|after="+after, "stake address %d: %s DPoS v2 votes are accounted as in use but the votes attached to producers sum to %s (vote rights %s)", a, ela(used), ela(inForce), ela(rights))
 		case rights > m.staked-m.returned:
 			return failf("C28|votes-overdraw|rights>staked|after="+after, "stake address %d: vote rights %s exceed coins staked %s − returned %s", a, ela(rights), ela(m.staked), ela(m.returned))
 		}
